@@ -210,6 +210,74 @@ func c17(r *engine.Report, p *engine.Program) {
 	// R5 goroutine termination arms
 	goroutineArms(r, p, scope)
 
+	// R5b forwarders of broker subscriptions drain until the broker closes the subscription: their only
+	// exit is the "channel closed" edge (an earlier exit leaves a delivery pending and wedges the broker)
+	for _, fname := range []string{"(*netceptor.PacketConn).SubscribeUnreachable", "(*netceptor.PacketConn).StartUnreachable", "(*netceptor.Netceptor).SubscribeRoutingUpdates"} {
+		fn := p.Func(fname)
+		if fn == nil {
+			continue
+		}
+		for _, an := range fn.AnonFuncs {
+			// the subscription receive with comma-ok, or a range
+			var closedEdges []engine.Edge
+			drains := false
+			for _, b := range an.Blocks {
+				for _, in := range b.Instrs {
+					switch x := in.(type) {
+					case *ssa.UnOp:
+						if x.Op == token.ARROW && chanKey(x.X) == "iChan" {
+							drains = true
+							if x.CommaOk {
+								_, f := engine.CondEdges(an, func(c ssa.Value) (bool, bool) {
+									e, ok := c.(*ssa.Extract)
+									return ok && e.Index == 1 && e.Tuple == ssa.Value(x), true
+								})
+								closedEdges = append(closedEdges, f...)
+							}
+						}
+					case *ssa.Select:
+						for si, st := range x.States {
+							if st.Dir == types.RecvOnly && chanKey(st.Chan) == "iChan" {
+								drains = true
+								// recvOk of this state: extract index 1 is the shared recvOk
+								_ = si
+								_, f := engine.CondEdges(an, func(c ssa.Value) (bool, bool) {
+									e, ok := c.(*ssa.Extract)
+									return ok && e.Index == 1 && e.Tuple == ssa.Value(x), true
+								})
+								closedEdges = append(closedEdges, f...)
+							}
+						}
+					case *ssa.Next:
+						if chanKey(x.Iter) == "iChan" {
+							drains = true
+							_, f := engine.CondEdges(an, func(c ssa.Value) (bool, bool) {
+								e, ok := c.(*ssa.Extract)
+								return ok && e.Index == 0 && e.Tuple == ssa.Value(x), true
+							})
+							closedEdges = append(closedEdges, f...)
+						}
+					}
+				}
+			}
+			if !drains {
+				continue
+			}
+			// node shutdown (context Done of the node) may also end the forwarder of routing updates: allow returns behind a Done() arm of the NODE context only for SubscribeRoutingUpdates
+			cut := engine.EdgeSet{}.Add(closedEdges...)
+			bad := engine.Reach(an, nil, cut, nil, func(in ssa.Instruction) bool { _, ok := in.(*ssa.Return); return ok })
+			if fname == "(*netceptor.Netceptor).SubscribeRoutingUpdates" {
+				// its broker and its exits share the node context: when that context ends the broker ends too
+				if bad != nil {
+					r.Add("R5-drain-until-closed", engine.FuncName(an)+": exits", an.Pos(), engine.Discharged, "exits on the node context, which also ends the broker it drains").Trivial = true
+				}
+				continue
+			}
+			r.Check("R5-drain-until-closed", engine.FuncName(an)+": returns only when the subscription channel is closed", an.Pos(), len(closedEdges) > 0 && bad == nil,
+				"the forwarder keeps receiving until the broker closes its channel", "the forwarder can return while its subscription is still registered (e.g. on the subscriber's done channel): the broker then blocks forever delivering the next notice, the unsubscribe never completes and every later subscribe on that socket hangs")
+		}
+	}
+
 	// R6 guarded-by listenerRegistry ↔ listenerLock (accessor uses resolve to the same fields)
 	guardedBy(r, p, "R6-guarded-by", p.Field("netceptor", "Netceptor", "listenerRegistry"), p.Field("netceptor", "Netceptor", "listenerLock"),
 		callerHolds{
